@@ -71,19 +71,27 @@ def _plain_walk(v, segs, rhs):
     return _plain_walk(child, segs[1:], rhs)
 
 
-def run_lhs(ctx, ntok, first, via):
+def run_lhs(ctx, ntok, first, via, second=None):
     from oslo_policy import policy
     common.set_ctx(ctx)
     if ntok == 0:
         toks = []
     else:
-        toks = [TOKENS[first]] + [ctx.choice('t%d' % i, TOKENS)
-                                  for i in range(1, ntok)]
+        # (second: cube split of the longest sequences)
+        toks = [TOKENS[first]] + [
+            TOKENS[second] if (i == 1 and second is not None)
+            else ctx.choice('t%d' % i, TOKENS) for i in range(1, ntok)]
     lhs = ''.join(toks)
     creds = {'roles': ['r'], 'a': {'b': 'x', '0': 'x', 'a': ['x', {'b': 'x'}]},
              'b': 'x', 'None': 'x'}
     target = {'k': 'x'} if ctx.bool('target_has_k') else {}
-    text = lhs + ':x'
+    # the right side plain, or in quotes of either kind (a text wrapped in
+    # matching quotes from end to end is one *string* token for the
+    # tokenizer: nothing to evaluate, but nothing to crash on either)
+    rhs = str(ctx.choice('rhs', ['x', "'x'", '"x"'])) \
+        if lhs[:1] in ('"', "'") else 'x'
+    text = lhs + ':' + rhs
+    odd = False
     if via == 'list':
         rules = {'p': [[text]]}
     elif via == 'list-and':
@@ -91,9 +99,11 @@ def run_lhs(ctx, ntok, first, via):
     else:
         # as a text rule the tokenizer would split/peel some of these: only
         # texts it leaves alone are in the language
-        if any(c in lhs for c in ' ()') or (lhs[:1] in '\'"' and
-                                             lhs[:1] == text[-1:]):
+        if any(c in lhs for c in ' ()'):
             return
+        # wrapped in matching quotes: not a check in the text language; it
+        # is still enforced (no crash), the decision oracle is skipped
+        odd = lhs[:1] in '\'"' and lhs[:1] == text[-1:]
         rules = {'p': 'not (%s) or %s' % (text, text)} if via == 'expr' \
             else {'p': text}
     # an enforcer in its default mode (use_conf=True) loads -- and validates
@@ -107,7 +117,9 @@ def run_lhs(ctx, ntok, first, via):
     ctx.cover('lhs:' + via)
     ctx.observe('lhs', lhs)
     ctx.observe('got', got)
-    if got is None or via == 'expr':
+    if got is None or via == 'expr' or odd or rhs != 'x':
+        if odd:
+            ctx.cover('lhs:quoted-end-to-end')
         return
     # oracle: literal -> compare with its string form; otherwise resolve
     try:
@@ -137,7 +149,9 @@ def cubes_lhs(tier, seed):
     if tier == 'quick':
         # displays of containers need four tokens: {[]}, [{}], ((,)), ...
         for f in (TOKENS.index('{'), TOKENS.index('['), TOKENS.index('(')):
-            out.append({'ntok': 4, 'first': f, 'via': 'list'})
+            for s in range(len(TOKENS)):
+                out.append({'ntok': 4, 'first': f, 'via': 'list',
+                            'second': s})
     return out
 
 
@@ -366,6 +380,7 @@ HARNESSES = {
     'chain': {'fn': run_chain, 'cubes': cubes_chain, 'max_viol': 6},
 }
 REQUIRED_COVER = ['lhs:list', 'lhs:text', 'lhs:literal', 'lhs:not-literal',
+                  'lhs:quoted-end-to-end',
                   'paths:evaluated', 'subst:list', 'subst:expr',
                   'gen:evaluated', 'chain:evaluated',
                   'chain:alias-to-undefined-hop']
